@@ -14,16 +14,17 @@
 From Icv Require Import Base.Tac Tp.TpModel Tp.TpProofs Tp.TpCal Tp.TpCalObs Tp.TpCalProofs.
 Local Open Scope Z_scope.
 
-(* the local times mktime is asked about for window [b, e]: 00:00 of every visited day and of the day after
-   the last one (the loop test that fails), 00:00 of the first / day-after-last day of every day definition
-   as seen from each of those days, and both boundaries of every time range on every visited day *)
+(* the local times mktime is asked about for window [b, e]: 00:00 of every visited day (from the first day of the loop:
+   begin's local day, in form lb the day before) and of the day after the last one (the loop test that fails), 00:00 of
+   the first / day-after-last day of every day definition as seen from each of those days, and both boundaries of every
+   time range on every visited day *)
 Fixpoint tp_zlist (from : Z) (n : nat) : list Z :=
   match n with O => [] | S k => from :: tp_zlist (from + 1) k end.
 
 Definition tp_tr_end (tr : Z * Z) : Z := if snd tr <=? fst tr then snd tr + 86400 else snd tr.
 
-Definition tp_needed_list (off : Z -> Z) (ranges : list (tp_dayrange * list (Z * Z))) (b e : Z) : list Z :=
-  let d0 := tp_local_day off b in
+Definition tp_needed_list (off : Z -> Z) (lb : bool) (ranges : list (tp_dayrange * list (Z * Z))) (b e : Z) : list Z :=
+  let d0 := tp_first_day off lb b in
   let dE := tp_local_day off e in
   let days := tp_zlist d0 (Z.to_nat (dE + 2 - d0)) in
   d0 * 86400 ::
@@ -131,6 +132,7 @@ End Key.
 (* ---- mktime ---- *)
 
 Variable mk : Z -> Z.
+Variables rnd lb : bool.
 
 Definition tp_good (L : Z) : Prop := mk L + off (mk L) = L /\ forall t', t' + off t' = L -> t' = mk L.
 
@@ -173,29 +175,37 @@ Proof.
 Qed.
 
 Lemma tp_fuel_enough b e : b <= e ->
-  tp_local_day off e < tp_local_day off b + Z.of_nat (tp_loop_fuel b e).
+  tp_local_day off e < tp_first_day off lb b + Z.of_nat (tp_loop_fuel b e).
 Proof.
-  intros Hbe. unfold tp_loop_fuel, tp_local_day, tp_local. rewrite Z2Nat.id by lia.
+  intros Hbe. unfold tp_first_day, tp_loop_fuel, tp_local_day, tp_local. rewrite Z2Nat.id by lia.
   pose proof (Hbound b). pose proof (Hbound e).
-  assert ((e + off e) / 86400 <= (b + off b) / 86400 + (e - b) / 86400 + 3); [|lia].
+  assert ((e + off e) / 86400 <= (b + off b) / 86400 + (e - b) / 86400 + 3); [|destruct lb; lia].
   assert (e + off e <= b + off b + (e - b) + 172800) by lia.
   lia.
 Qed.
 
-(* the loop of ScriptFunc(begin, end) visits day r iff some instant of [begin, end] has local day r *)
+Lemma tp_first_day_le b : tp_first_day off lb b <= tp_local_day off b.
+Proof. unfold tp_first_day. destruct lb; lia. Qed.
+
+(* the loop of ScriptFunc(begin, end) visits day r iff some instant of [begin, end] has local day r - and, in form
+   lb, the local day before begin's *)
 Theorem tp_day_loop_days b e r :
   b <= e ->
   tp_good (tp_local_day off b * 86400) ->
-  (forall d, tp_local_day off b <= d <= tp_local_day off e + 1 -> tp_good (d * 86400)) ->
-  (In r (tp_loop_days mk (tp_loop_fuel b e) (tp_local_day off b) e) <->
-   exists t, b <= t <= e /\ tp_local_day off t = r).
+  (forall d, tp_first_day off lb b <= d <= tp_local_day off e + 1 -> tp_good (d * 86400)) ->
+  (In r (tp_loop_days mk (tp_loop_fuel b e) (tp_first_day off lb b) e) <->
+   (lb = true /\ r = tp_local_day off b - 1) \/ exists t, b <= t <= e /\ tp_local_day off t = r).
 Proof.
   intros Hbe Hg0 Hg.
+  pose proof (tp_first_day_le b) as Hfd.
   pose proof (tp_local_day_mono b e Hg0 Hbe) as Hmono.
   rewrite tp_loop_days_dst; [|exact Hg|lia].
   pose proof (tp_fuel_enough b e Hbe) as Hf.
   split.
   - intros [[H1 _] H2].
+    destruct (Z_lt_le_dec r (tp_local_day off b)) as [Hlt|Hge].
+    { left. unfold tp_first_day in H1. destruct lb; [split; [reflexivity|lia]|lia]. }
+    right.
     destruct (Z.eq_dec r (tp_local_day off b)) as [->|Hne].
     + exists b. split; [lia|reflexivity].
     + assert (tp_good (r * 86400)) as Hgr by (apply Hg; lia).
@@ -208,7 +218,8 @@ Proof.
         apply (tp_midnight_le _ b (Hg (tp_local_day off b + 1) ltac:(lia))) in Hc. lia.
       * apply (tp_midnight_le r e (conj Hs Hu)). exact H2.
       * unfold tp_local_day, tp_local. rewrite Hs. apply Z.div_mul. lia.
-  - intros (t & Ht & <-).
+  - intros [[Hlb ->]|(t & Ht & <-)].
+    { unfold tp_first_day in *. rewrite Hlb in *. lia. }
     assert (tp_local_day off b <= tp_local_day off t) as A.
     { apply (tp_midnight_le _ t Hg0).
       assert (tp_midnight mk (tp_local_day off b) <= b) by (apply (tp_midnight_le _ b Hg0); lia). lia. }
@@ -225,7 +236,7 @@ Qed.
 
 Lemma tp_in_day_def_dst dd r :
   tp_good (r * 86400) -> tp_good (tp_range_begin_day dd r * 86400) -> tp_good (tp_range_end_day dd r * 86400) ->
-  tp_in_day_def mk dd r = tp_day_matches_secs mk dd r.
+  tp_in_day_def mk false dd r = tp_day_matches_secs mk dd r.
 Proof.
   intros Hr Hb He. unfold tp_in_day_def, tp_day_matches_secs, tp_midnight.
   set (bd := tp_range_begin_day dd r) in *. set (ed := tp_range_end_day dd r) in *. set (s := tp_dr_stride dd).
@@ -242,6 +253,46 @@ Proof.
     + assert ((0 <? dn mod s) = false) as -> by lia. reflexivity.
     + assert ((0 <? dn mod s) = true) as -> by lia. reflexivity.
   - assert ((s <=? 1) = true) as -> by lia. reflexivity.
+Qed.
+
+(* form rnd = true (day number rounded to the nearest day): IsInDayDefinition IS the calendar statement, in every zone
+   whose offsets at the two midnights differ by less than 12 h - spring forward, fall back, 30-minute shifts alike *)
+Lemma tp_in_day_def_round dd r :
+  tp_good (r * 86400) -> tp_good (tp_range_begin_day dd r * 86400) -> tp_good (tp_range_end_day dd r * 86400) ->
+  -43200 < off (tp_midnight mk r) - off (tp_midnight mk (tp_range_begin_day dd r)) < 43200 ->
+  tp_in_day_def mk true dd r = tp_day_matches dd r.
+Proof.
+  intros Hr Hb He Hd. unfold tp_in_day_def, tp_day_matches, tp_midnight in *.
+  set (bd := tp_range_begin_day dd r) in *. set (ed := tp_range_end_day dd r) in *. set (s := tp_dr_stride dd).
+  rewrite (tp_good_ltb _ (mk (r * 86400)) Hb), (tp_good_leb _ (mk (r * 86400)) He).
+  destruct Hr as [Hrs _]. destruct Hb as [Hbs _]. rewrite Hrs.
+  destruct ((r * 86400 <? bd * 86400) || (ed * 86400 <=? r * 86400)) eqn:C1.
+  { destruct (bd <=? r) eqn:C2, (r <? ed) eqn:C3; cbn; try reflexivity; lia. }
+  assert ((mk (r * 86400) - mk (bd * 86400) + 43200) / 86400 = r - bd) as ->.
+  { set (dl := off (mk (r * 86400)) - off (mk (bd * 86400))) in *.
+    replace (mk (r * 86400) - mk (bd * 86400) + 43200) with ((r - bd) * 86400 + (43200 - dl)) by (subst dl; lia).
+    rewrite Z.div_add_l by lia. rewrite (Z.div_small (43200 - dl)) by lia. lia. }
+  assert ((bd <=? r) = true) as -> by lia. assert ((r <? ed) = true) as -> by lia. cbn [andb].
+  destruct (1 <? s) eqn:C4.
+  - assert ((s <=? 1) = false) as -> by lia. cbn [andb orb].
+    pose proof (Z.mod_pos_bound (r - bd) s ltac:(lia)) as Hm.
+    destruct ((r - bd) mod s =? 0) eqn:C5.
+    + assert ((0 <? (r - bd) mod s) = false) as -> by lia. reflexivity.
+    + assert ((0 <? (r - bd) mod s) = true) as -> by lia. reflexivity.
+  - assert ((s <=? 1) = true) as -> by lia. reflexivity.
+Qed.
+
+(* both forms at once: the pinned form counts the stride in seconds / 86400, the rounded form in calendar days *)
+Lemma tp_in_day_def_form dd r :
+  tp_good (r * 86400) -> tp_good (tp_range_begin_day dd r * 86400) -> tp_good (tp_range_end_day dd r * 86400) ->
+  (rnd = true -> forall t t', off t - off t' < 43200) ->
+  tp_in_day_def mk rnd dd r = if negb rnd then tp_day_matches_secs mk dd r else tp_day_matches dd r.
+Proof.
+  intros Hr Hb He Hs. destruct rnd; cbn [negb].
+  - apply tp_in_day_def_round; try assumption.
+    pose proof (Hs eq_refl (tp_midnight mk r) (tp_midnight mk (tp_range_begin_day dd r))).
+    pose proof (Hs eq_refl (tp_midnight mk (tp_range_begin_day dd r)) (tp_midnight mk r)). lia.
+  - apply tp_in_day_def_dst; assumption.
 Qed.
 
 (* the stride agrees with the calendar-day stride when the offset is the same at both midnights
@@ -286,17 +337,17 @@ Qed.
 (* ---- membership in the list of local times mktime is asked about ---- *)
 
 Lemma tp_needed_in ranges b e d :
-  tp_local_day off b <= d <= tp_local_day off e + 1 ->
-  In (d * 86400) (tp_needed_list off ranges b e) /\
+  tp_first_day off lb b <= d <= tp_local_day off e + 1 ->
+  In (d * 86400) (tp_needed_list off lb ranges b e) /\
   forall kv, In kv ranges ->
-    In (tp_range_begin_day (fst kv) d * 86400) (tp_needed_list off ranges b e) /\
-    In (tp_range_end_day (fst kv) d * 86400) (tp_needed_list off ranges b e) /\
+    In (tp_range_begin_day (fst kv) d * 86400) (tp_needed_list off lb ranges b e) /\
+    In (tp_range_end_day (fst kv) d * 86400) (tp_needed_list off lb ranges b e) /\
     forall tr, In tr (snd kv) ->
-      In (d * 86400 + fst tr) (tp_needed_list off ranges b e) /\
-      In (d * 86400 + tp_tr_end tr) (tp_needed_list off ranges b e).
+      In (d * 86400 + fst tr) (tp_needed_list off lb ranges b e) /\
+      In (d * 86400 + tp_tr_end tr) (tp_needed_list off lb ranges b e).
 Proof.
   intros Hd. unfold tp_needed_list.
-  set (days := tp_zlist (tp_local_day off b) (Z.to_nat (tp_local_day off e + 2 - tp_local_day off b))).
+  set (days := tp_zlist (tp_first_day off lb b) (Z.to_nat (tp_local_day off e + 2 - tp_first_day off lb b))).
   assert (In d days) as Hin by (apply tp_zlist_in; rewrite Z2Nat.id by lia; lia).
   split.
   - right. apply in_flat_map. exists d. split; [exact Hin|]. left. reflexivity.
@@ -314,31 +365,39 @@ Proof.
         apply in_flat_map. exists tr. split; [exact Htr|]. right. left. reflexivity.
 Qed.
 
-(* ---- (1) the produced segments, for any such local time ---- *)
+(* ---- (1) the produced segments, for any such local time and either form of the source ---- *)
+
+(* the local day of begin is visited and needed in either form *)
+Lemma tp_needed_day0 ranges b e :
+  tp_local_day off b <= tp_local_day off e + 1 -> In (tp_local_day off b * 86400) (tp_needed_list off lb ranges b e).
+Proof. intros H. apply tp_needed_in. pose proof (tp_first_day_le b). lia. Qed.
 
 Theorem tp_script_func_dst ranges b e t :
   b <= t <= e -> tp_ranges_bounded ranges ->
-  (forall L, In L (tp_needed_list off ranges b e) -> tp_good L) ->
-  tp_inside_segs (tp_script_func off mk ranges b e) t =
-  tp_spec_inside off mk true (Some (tp_local_day off b)) tp_back ranges t.
+  (forall L, In L (tp_needed_list off lb ranges b e) -> tp_good L) ->
+  tp_good (tp_local_day off b * 86400) ->
+  (rnd = true -> forall t t', off t - off t' < 43200) ->
+  tp_inside_segs (tp_script_func off mk rnd lb ranges b e) t =
+  tp_spec_inside off mk (negb rnd) (Some (tp_first_day off lb b)) tp_back ranges t.
 Proof.
-  intros Ht Hb Hneed.
-  assert (tp_good (tp_local_day off b * 86400)) as Hg0 by (apply Hneed; left; reflexivity).
-  assert (forall d, tp_local_day off b <= d <= tp_local_day off e + 1 -> tp_good (d * 86400)) as Hmid
+  intros Ht Hb Hneed Hg0 Hspan.
+  pose proof (tp_first_day_le b) as Hfd.
+  assert (forall d, tp_first_day off lb b <= d <= tp_local_day off e + 1 -> tp_good (d * 86400)) as Hmid
     by (intros d Hd; apply Hneed; apply (tp_needed_in ranges b e d Hd)).
   assert (tp_local_day off b <= tp_local_day off e) as Hmono by (apply tp_local_day_mono; [exact Hg0|lia]).
-  assert (forall d, In d (tp_loop_days mk (tp_loop_fuel b e) (tp_local_day off b) e) <->
-                    tp_local_day off b <= d <= tp_local_day off e) as Hloop.
+  assert (forall d, In d (tp_loop_days mk (tp_loop_fuel b e) (tp_first_day off lb b) e) <->
+                    tp_first_day off lb b <= d <= tp_local_day off e) as Hloop.
   { intros d. rewrite tp_loop_days_dst; [|exact Hmid|lia].
     pose proof (tp_fuel_enough b e ltac:(lia)). lia. }
-  rewrite tp_script_func_general.
-  rewrite (tp_existsb_ext _ (fun d => tp_day_covers off mk true ranges d t)).
+  rewrite tp_script_func_general by (right; lia).
+  rewrite (tp_existsb_ext _ (fun d => tp_day_covers off mk (negb rnd) ranges d t)).
   2: { intros d Hd. apply Hloop in Hd.
        destruct (tp_needed_in ranges b e d ltac:(lia)) as [_ Hkv].
        unfold tp_day_covers. apply tp_existsb_ext. intros kv Hk.
        destruct (Hkv kv Hk) as (HB & HE & Htr).
-       rewrite tp_in_day_def_dst; [|apply Hmid; lia|apply Hneed; exact HB|apply Hneed; exact HE].
-       destruct (tp_day_matches_secs mk (fst kv) d); [|reflexivity]. cbn [andb].
+       rewrite tp_in_day_def_form; [|apply Hmid; lia|apply Hneed; exact HB|apply Hneed; exact HE|exact Hspan].
+       destruct (if negb rnd then tp_day_matches_secs mk (fst kv) d else tp_day_matches (fst kv) d); [|reflexivity].
+       cbn [andb].
        apply tp_existsb_ext. intros tr Hin. destruct (Htr tr Hin) as [H1 H2].
        apply tp_in_time_range_dst; apply Hneed; assumption. }
   unfold tp_spec_inside.
@@ -350,26 +409,36 @@ Proof.
     apply (tp_midnight_le _ e Hg1) in Hc2. lia. }
   apply Bool.eq_true_iff_eq. rewrite !existsb_exists. split.
   - intros (d & Hin & Hc). exists d. apply Hloop in Hin.
-    pose proof (tp_day_covers_reach_gen true ranges d t Hb Hc) as Hr.
+    pose proof (tp_day_covers_reach_gen (negb rnd) ranges d t Hb Hc) as Hr.
     assert (tp_local_day off t = tp_local off t / 86400) as Hdt by reflexivity.
     split; [apply (tp_days_back_in 0); unfold tp_back; lia|].
-    rewrite Hc. assert ((tp_local_day off b <=? d) = true) as -> by lia. reflexivity.
+    rewrite Hc. assert ((tp_first_day off lb b <=? d) = true) as -> by lia. reflexivity.
   - intros (d & Hin & Hc). apply andb_prop in Hc. destruct Hc as [Hd Hc]. exists d.
     apply (tp_days_back_in 0) in Hin. split; [|exact Hc]. apply Hloop. lia.
 Qed.
 
-(* the property's statement: hypotheses = negated signatures of F-C08-c (stride) and F-C08-b (wrap) *)
+(* the property's statement.  What is asked of the stride and of the days before the loop's first day depends on the
+   form of the source:
+     pinned day number (rnd = false):  stride counted in seconds = calendar stride   (negated signature of stride-dst)
+     rounded day number (rnd = true):  the zone's offsets differ by less than 12 h
+   and, for either loop, no range of a day before the loop's FIRST day reaches t - with the pinned loop (lb = false) that
+   is the negated signature of wrap-first-day; with the loop that starts a day early it holds for every set of ranges
+   that end at most 48 h after 00:00 of their day (tp_ranges_lookback_dst below) *)
 Theorem tp_ranges_dst ranges b e t :
   b <= t <= e -> tp_ranges_bounded ranges ->
-  (forall L, In L (tp_needed_list off ranges b e) -> tp_good L) ->
-  (forall d kv, tp_local_day off b <= d <= tp_local_day off e -> In kv ranges ->
-                tp_day_matches_secs mk (fst kv) d = tp_day_matches (fst kv) d) ->
-  (forall d, d < tp_local_day off b -> tp_day_covers off mk false ranges d t = false) ->
-  tp_inside_segs (tp_script_func off mk ranges b e) t = tp_spec_inside off mk false None tp_back ranges t.
+  (forall L, In L (tp_needed_list off lb ranges b e) -> tp_good L) ->
+  tp_good (tp_local_day off b * 86400) ->
+  (if rnd then forall t t', off t - off t' < 43200
+   else forall d kv, tp_first_day off lb b <= d <= tp_local_day off e -> In kv ranges ->
+                     tp_day_matches_secs mk (fst kv) d = tp_day_matches (fst kv) d) ->
+  (forall d, d < tp_first_day off lb b -> tp_day_covers off mk false ranges d t = false) ->
+  tp_inside_segs (tp_script_func off mk rnd lb ranges b e) t = tp_spec_inside off mk false None tp_back ranges t.
 Proof.
-  intros Ht Hb Hneed Hstride Hwrap. rewrite tp_script_func_dst by assumption.
-  assert (tp_good (tp_local_day off b * 86400)) as Hg0 by (apply Hneed; left; reflexivity).
-  assert (forall d, tp_local_day off b <= d <= tp_local_day off e + 1 -> tp_good (d * 86400)) as Hmid
+  intros Ht Hb Hneed Hg0 Hstride Hwrap.
+  rewrite tp_script_func_dst; try assumption.
+  2: { intros ->. exact Hstride. }
+  pose proof (tp_first_day_le b) as Hfd.
+  assert (forall d, tp_first_day off lb b <= d <= tp_local_day off e + 1 -> tp_good (d * 86400)) as Hmid
     by (intros d Hd; apply Hneed; apply (tp_needed_in ranges b e d Hd)).
   assert (tp_local_day off t <= tp_local_day off e) as HdtE.
   { destruct (Z_lt_le_dec (tp_local_day off e) (tp_local_day off t)) as [Hc|]; [|assumption]. exfalso.
@@ -379,10 +448,31 @@ Proof.
     assert (tp_midnight mk (tp_local_day off e + 1) <= e) as Hc2 by lia.
     apply (tp_midnight_le _ e Hg1) in Hc2. lia. }
   unfold tp_spec_inside. apply tp_existsb_ext. intros d Hin. apply (tp_days_back_in 0) in Hin.
-  destruct (tp_local_day off b <=? d) eqn:C.
+  destruct (tp_first_day off lb b <=? d) eqn:C.
   - cbn [andb]. unfold tp_day_covers. apply tp_existsb_ext. intros kv Hkv.
+    destruct rnd; cbn [negb]; [reflexivity|].
     rewrite (Hstride d kv ltac:(lia) Hkv). reflexivity.
   - cbn [andb]. symmetry. apply Hwrap. lia.
+Qed.
+
+(* with the loop started a day early nothing of wrap-first-day is left for ranges ending at most 48 h after 00:00 of
+   their day (24:00 ends and ranges wrapping past midnight do) *)
+Theorem tp_ranges_lookback_dst ranges b e t :
+  lb = true ->
+  b <= t <= e -> tp_ranges_bounded ranges -> tp_ranges_reach1 ranges ->
+  (forall L, In L (tp_needed_list off lb ranges b e) -> tp_good L) ->
+  tp_good (tp_local_day off b * 86400) ->
+  (if rnd then forall t t', off t - off t' < 43200
+   else forall d kv, tp_first_day off lb b <= d <= tp_local_day off e -> In kv ranges ->
+                     tp_day_matches_secs mk (fst kv) d = tp_day_matches (fst kv) d) ->
+  tp_inside_segs (tp_script_func off mk rnd lb ranges b e) t = tp_spec_inside off mk false None tp_back ranges t.
+Proof.
+  intros Hlb Ht Hb Hr Hneed Hg0 Hstride. apply tp_ranges_dst; try assumption.
+  intros d Hd. apply tp_reach1_no_earlier_day; [exact Hr|].
+  unfold tp_first_day in Hd. rewrite Hlb in Hd.
+  assert (tp_local_day off b <= tp_local_day off t); [|lia].
+  apply (tp_midnight_le _ t Hg0).
+  assert (tp_midnight mk (tp_local_day off b) <= b) by (apply (tp_midnight_le _ b Hg0); lia). lia.
 Qed.
 
 End Dst.
